@@ -16,6 +16,9 @@ import json, os, re, shutil, subprocess, sys, tempfile, time, hashlib, random
 VERIF = os.path.dirname(os.path.dirname(os.path.abspath(__file__)))
 REPO = os.environ.get("VERIF_REPO", "/repo")
 ENGINE = os.path.join(REPO, "proxy/src/services/lunar-engine")
+# runs against a scratch worktree (mutation testing) must not overwrite the evidence / replays of /repo itself
+ALT = os.path.abspath(REPO) != "/repo"
+OUTROOT = VERIF if not ALT else os.path.join("/tmp", "verif-alt-" + hashlib.sha1(os.path.abspath(REPO).encode()).hexdigest()[:8])
 TLA_CP = "/opt/veriftools/tla/tla2tools.jar:/opt/veriftools/tla/CommunityModules-deps.jar"
 NCPU = os.cpu_count() or 4
 
@@ -256,7 +259,7 @@ class Ctx:
             if f["id"] not in [k["id"] for k in self.known_hits]:
                 self.known_hits.append(f)
             return False
-        d = os.path.join(VERIF, "replays", self.pid)
+        d = os.path.join(OUTROOT, "replays", self.pid)
         os.makedirs(d, exist_ok=True)
         body = json.dumps({"property": self.pid, "witness": witness, "replay": replay_obj}, indent=1, sort_keys=True, default=str)
         h = hashlib.sha1(body.encode()).hexdigest()[:10]
@@ -295,7 +298,7 @@ class Ctx:
 
 
 def write_evidence(pid, ev):
-    d = os.path.join(VERIF, "evidence")
+    d = os.path.join(OUTROOT, "evidence")
     os.makedirs(d, exist_ok=True)
     tmp = os.path.join(d, ".%s.json.tmp" % pid)
     json.dump(ev, open(tmp, "w"), indent=1, sort_keys=True, default=str)
